@@ -39,6 +39,8 @@ def run(repo, rep):
     rep.run_borrowed(c11, {"C11-b": "C12-a"}, repo, only_sites=("data_type",))
     rule_round5(repo, rep)
     rule_subgraph_refs(repo, rep)
+    rule_address_map_alive_until_written(repo, rep)
+    rule_cpu_pass_tensors(repo, rep)
     sw = repo.mod("stats_writer")
     got_get = any(isinstance(n_, ast.Call) and norm(n_.func) == "nng.memory_used.get" for n_ in ast.walk(sw.tree))
     got_arg = any(isinstance(n_, ast.Call) and any(norm(a_) == "nng.memory_used" for a_ in list(n_.args) + [k_.value for k_ in n_.keywords]) for n_ in ast.walk(sw.tree))
@@ -301,3 +303,60 @@ def rule_subgraph_refs(repo, rep):
         rep.check(mname in resolved, "C12-g", "ethosu/vela/tflite_reader.py:TFLiteSubgraph.parse_operator", f"option `{mname}` is resolved into the operator's attrs['subgraph']",
                   f"`{mname}` is read from the file but never resolved: the subgraph it names is not visited by live-range extraction, its tensors keep address None and are written with offset 0 "
                   "(all tensors of both IF branches overlap at [0, size)), or the compiler stops with a TypeError")
+
+
+def rule_address_map_alive_until_written(repo, rep):
+    """(h) Tensor.address is looked up in the process-wide TensorAddressMap on every read; the writer reads it while it builds the
+    OfflineMemoryAllocation record. In every entry point the map is emptied before the compilation starts and after the output has been
+    written - never between compiler_driver() and the writer (a `finally` of a try around the compilation runs exactly there)."""
+    rep.clause("C12-h", "in every entry point TensorAddressMap.clear_address_map() runs before the compilation or after the writer, never between the two (the writer reads every tensor's address from that map)")
+    vm = repo.mod("vela")
+    n = 0
+    for q, fn in vm.functions.items():
+        comp = [c for c in ast.walk(fn) if isinstance(c, ast.Call) and str(norm(c.func)) == "compiler_driver.compiler_driver"]
+        wr = [c for c in ast.walk(fn) if isinstance(c, ast.Call) and str(norm(c.func)) in ("tflite_writer.write_tflite", "tflite_writer.write_tflite_buffer", "rawdata_writer.write_rawdata_output")]
+        cl = [c for c in ast.walk(fn) if isinstance(c, ast.Call) and str(norm(c.func)).endswith("clear_address_map")]
+        if not comp or not wr:
+            continue
+        n += 1
+
+        def rank(node):
+            """position in execution order: a statement of a `finally` block runs when its try statement ends"""
+            cur, r = node, node.lineno
+            while cur is not fn and cur is not None:
+                pp = vm.parents.get(cur)
+                if isinstance(pp, ast.Try) and any(cur is x or any(cur is y for y in ast.walk(x)) for x in pp.finalbody):
+                    r = max(r, getattr(pp, "end_lineno", r))
+                cur = pp
+            return r
+
+        c0 = min(c.lineno for c in comp)
+        w1 = max(rank(w) for w in wr)
+        between = [c for c in cl if c0 <= rank(c) < w1 and not (c.lineno < c0 and rank(c) == c.lineno)]
+        rep.check(not between, "C12-h", f"ethosu/vela/vela.py:{q}", f"no clear_address_map() between compiler_driver() (line {c0}) and the last writer call ({len(cl)} clears, {len(wr)} writers)",
+                  "the address map is emptied after the compilation and before the output is written (e.g. in a `finally` of a try around the compilation): every tensor's address reads None and the writer emits "
+                  "offset 0 for all arena tensors (all of them overlap at [0, size))")
+    if n < 3:
+        raise AnalysisError(f"entry points that compile and write: {n} found")
+    rep.floor("C12-h", 3)
+
+
+def rule_cpu_pass_tensors(repo, rep):
+    """(i) live ranges of the tensors of CPU operators come from the CascadedPass that schedule_passes builds per CPU pass: it is handed the
+    pass's own input and output lists unfiltered (a result that nobody reads is still written by its kernel and needs arena space)."""
+    rep.clause("C12-i", "the CascadedPass of a CPU pass carries all inputs and all outputs of the pass (every tensor a CPU kernel writes gets a live range, consumed or not)")
+    sch = repo.mod("scheduler")
+    sp = sch.func("schedule_passes")
+    calls = [c for c in ast.walk(sp) if isinstance(c, ast.Call) and call_name(c) == "CascadedPass"]
+    if len(calls) != 1 or len(calls[0].args) < 5:
+        raise AnalysisError("schedule_passes: CascadedPass(...) for CPU passes not found")
+    cls_init = repo.mod("nn_graph").func("CascadedPass.__init__")
+    params = [a.arg for a in cls_init.args.args[1:]]
+    got = dict(zip(params, calls[0].args))
+    for role in ("inputs", "outputs"):
+        if role not in got:
+            raise AnalysisError(f"CascadedPass.__init__ has no parameter `{role}`")
+        rep.check(str(norm(got[role])) == f"ps.{role}", "C12-i", "ethosu/vela/scheduler.py:schedule_passes", f"CascadedPass({role}=ps.{role}) for CPU passes",
+                  f"`{str(norm(got[role]))[:70]}`: tensors left out get no live range, keep address None and are written with arena offset 0, where the kernel's write overlaps whatever was allocated there "
+                  "(demonstrated: TOPK_V2 whose indices output is unused)")
+    rep.floor("C12-i", 2)
